@@ -38,7 +38,11 @@ func main() {
 				prog, _ := compa.GenGo(rr)
 				src = prog.Print(rr.Fork(7))
 			} else {
-				src, _ = compa.GenGoExt(rr, 2+rr.Intn(4))
+				if i%2 == 0 {
+					src = compa.GenGoExtNamed(rr, []string{"range-forms", "assign-ops", "operator-precedence", "operator-precedence"})
+				} else {
+					src, _ = compa.GenGoExt(rr, 2+rr.Intn(4))
+				}
 			}
 			if class, msg := env.GoCheck([]byte(src), nil); class != "" {
 				bad++
